@@ -350,6 +350,7 @@ class Iface(object):
             if op.out_type is not None:
                 refs.setdefault(tuple(op.out_type), []).append(("wrapper", None, op.name + "Response"))
         bases = set(t.base for t in S.types if t.base)
+        self.anon_optional = set()      # anonymizable types whose single referrer is an element with minOccurs=0
         self.anonymizable = set()
         for t in S.types:
             key = (t.ns, t.name)
@@ -361,6 +362,8 @@ class Iface(object):
                 self.anonymizable.add(key)
             elif kind == "elem" and owner is not t and owner.ns == t.ns:
                 self.anonymizable.add(key)
+                if r[0][2].opt:
+                    self.anon_optional.add(key)
         # an anonymizable type reachable only from itself through other anonymizable
         # types would disappear: keep every cycle named
         changed = True
@@ -384,6 +387,7 @@ class Plan(object):
 
     PFX_POOL = ["tns", "t0", "t1", "q", "impl", "typ", "m", "ns", "a", "b-c", "x_1", "my.ns", "ns1", "ns2", "p"]
     ENABLE_DECL_ON_USE = False      # set by run_render when PROPOSED_D is a listed finding
+    ENABLE_ANON_OPTIONAL = False    # set by run_render when PROPOSED_E is a listed finding
 
     def __init__(self, rng, iface, baseline=False):
         from . import family as F
@@ -417,7 +421,8 @@ class Plan(object):
         self.soap_pfx = rng.choice(["soap", "soap", "s11", "wsoap"])
         self.xsd_pfx = rng.choice(["xsd", "xsd", "xs", "s", ""])
         self.xsd_decl_on_block = self.xsd_pfx == "" or r() < 0.3
-        self.anon = set(k for k in iface.anonymizable if r() < 0.5)
+        self.anon = set(k for k in sorted(iface.anonymizable) if r() < 0.5
+                        and (self.ENABLE_ANON_OPTIONAL or k not in iface.anon_optional))
         self.refs = set()          # element names written as ref= to a global declaration
         self.groups = set()        # ids of Cont objects factored into a named group
         self.subgroups = {}        # id(Cont) -> (i, j): kids[i:j] of a sequence factored into a group
@@ -1468,6 +1473,11 @@ KNOWN_C = "C07:same-namespace-blocks-elementFormDefault"
 # wsdl:port / wsdl:input / wsdl:output element whose binding= / message= uses it is not found, because the
 # reference is resolved against the enclosing service / portType element
 PROPOSED_D = "C07:prefix-declared-on-referencing-wsdl-element"
+# proposed (same gating): an element with minOccurs="0" and an ANONYMOUS complex type is itself the first entry
+# of its children's ancestry (sxbase.Iter starts at the element), so Typed.optional() finds an optional ancestor
+# and None for a required nillable child is dropped instead of sent as xsi:nil; with the same type NAMED the
+# ancestry starts at the complexType and xsi:nil is sent
+PROPOSED_E = "C07:optional-element-with-anonymous-type-makes-children-optional"
 
 
 def toggles(plan, iface):
@@ -1487,6 +1497,9 @@ def toggles(plan, iface):
     if plan.decl_on_use:
         out.append((PROPOSED_D, "a prefix declared on the wsdl:port / wsdl:input element that uses it",
                     lambda q: setattr(q, "decl_on_use", False)))
+    if plan.anon & iface.anon_optional:
+        out.append((PROPOSED_E, "an optional element written with an anonymous type",
+                    lambda q: setattr(q, "anon", q.anon - iface.anon_optional)))
     if "xsi" in plan.prefixes:
         out.append((KNOWN_B, "a target namespace spelled with the prefix xsi",
                     lambda q: setattr(q, "prefixes", [x if x != "xsi" else "tns9" for x in q.prefixes])))
@@ -1537,7 +1550,7 @@ def attribute(iface, plan, observe, expected):
             got = ("harness", repr(e))
         return got == expected
     cands = toggles(plan, iface)
-    known = [c for c in cands if c[0] in (KNOWN_A, KNOWN_B, KNOWN_C, PROPOSED_D)]
+    known = [c for c in cands if c[0] in (KNOWN_A, KNOWN_B, KNOWN_C, PROPOSED_D, PROPOSED_E)]
     # known classes (alone, then together) before any generic feature: switching a generic
     # feature off (e.g. "one block per namespace") also removes the known quirks
     for group in (known, cands):
@@ -1616,6 +1629,7 @@ def run_render(ck, unproved):
     from . import sudsutil as U  # noqa
     rng = ck.rng
     Plan.ENABLE_DECL_ON_USE = True
+    Plan.ENABLE_ANON_OPTIONAL = PROPOSED_E in ck.known
     n_ifaces = 36 if ck.tier == "quick" else 400
     K = 4 if ck.tier == "quick" else 6
     reps = 2 if ck.tier == "quick" else 4
